@@ -27,6 +27,7 @@ class Run:
         self.injected: list[dict] = []
         self.wf_id = ""
         self.budget_exhausted = False
+        self.bus_log: list[dict] = []
 
 
 def _inject(w: World, inj: dict, rng: random.Random, run: Run) -> None:
@@ -159,6 +160,7 @@ def delivery_run(
         run.handled = list(w.handled)
         run.handler_calls = list(w.handler_calls)
         run.in_txn = w.in_transaction()
+        run.bus_log = list(w.bus_log)
     finally:
         if not keep_world:
             w.close()
